@@ -640,10 +640,15 @@ func straceSection(t *testing.T, rep *report.Report, base string) {
 		if i := strings.Index(line, " "); i > 0 { // strip pid
 			line = strings.TrimSpace(line[i:])
 		}
-		if !strings.Contains(line, hd+"/") || strings.Contains(line, "= -1") {
+		if !(strings.Contains(line, hd+"/") || strings.Contains(line, hd+">") || strings.Contains(line, hd+`"`)) || strings.Contains(line, "= -1") {
 			continue
 		}
-		rel := func(p string) string { return strings.TrimPrefix(p, hd+"/") }
+		rel := func(p string) string {
+			if p == hd {
+				return "." // the directory itself (a directory fsync)
+			}
+			return strings.TrimPrefix(p, hd+"/")
+		}
 		switch {
 		case strings.HasPrefix(line, "openat("):
 			if strings.Contains(line, "O_CREAT") || strings.Contains(line, "O_TRUNC") || strings.Contains(line, "O_WRONLY") || strings.Contains(line, "O_RDWR") {
